@@ -1,4 +1,5 @@
 import S3db.Lemmas.RowMerge
+import S3db.Lemmas.TableCells
 import S3db.Props.C01
 /-!
 # C02 — conflicts resolve as documented: per-column last-write-wins, sticky deletes
@@ -14,6 +15,7 @@ namespace S3db.Props.C02
 open S3db S3db.AList S3db.Row S3db.Table S3db.Props.C01
 
 variable {K V : Type} [DecidableEq K] [DecidableEq V]
+set_option linter.unusedSectionVars false
 
 /-! ### which cell wins: the latest -/
 
@@ -22,7 +24,8 @@ theorem status_latest (v : Nat → Option Status)
     (hR : ∀ i j x y, v i = some x → v j = some y → StatusR x y)
     (p : Sel.Plan) (s : Status) (h : Sel.evalAt selStatus v p = some s) :
     (∃ i ∈ p.leaves, v i = some s) ∧ ∀ i ∈ p.leaves, ∀ s', v i = some s' → s'.dut ≤ s.dut := by
-  sorry
+  obtain ⟨hex, hd⟩ := Sel.evalAt_some statusLaws hR p s h
+  exact ⟨hex, fun i hi s' hs' => selStatus_eq_left_le (hd i hi s' hs')⟩
 
 /-- each column holds the assignment with the greatest time; an older write never overrides a
     newer one -/
@@ -30,13 +33,16 @@ theorem column_latest (v : Nat → Option (ACol V))
     (hR : ∀ i j x y, v i = some x → v j = some y → ColR x y)
     (p : Sel.Plan) (x : ACol V) (h : Sel.evalAt selCol v p = some x) :
     (∃ i ∈ p.leaves, v i = some x) ∧ ∀ i ∈ p.leaves, ∀ y, v i = some y → y.t ≤ x.t := by
-  sorry
+  obtain ⟨hex, hd⟩ := Sel.evalAt_some colLaws hR p x h
+  exact ⟨hex, fun i hi y hy => selCol_eq_left_le (hd i hi y hy)⟩
 
 /-- a DELETE keeps the row absent whatever the columns hold — in particular against UPDATEs
     carrying a later write time — until an INSERT with a later time -/
 theorem delete_sticky (t : Table K V) (k : K) (e : SEntry V) (h : lookup k t = some e)
     (hd : e.row.status.deleted = true) : visibleRow t k = none := by
-  sorry
+  have hd' : e.row.deleted = true := hd
+  rw [visibleRow_eq, h]
+  simp [visible, hd']
 
 /-! ### what a statement does to the cells of its key (and only of its key) -/
 
@@ -45,32 +51,38 @@ theorem local_insert (S : List String) (t t' : Table K V) (when : Int) (k : K) (
     statusCell (lookup k t') = Sel.selOpt selStatus (statusCell (lookup k t)) (some ⟨when, false⟩) ∧
     (∀ c, colCell c (lookup k t') =
       Sel.selOpt selCol (colCell c (lookup k t)) ((lookup c vals).map fun v => ⟨v, when⟩)) ∧
-    (∀ k', k' ≠ k → lookup k' t' = lookup k' t) := by
-  sorry
+    (∀ k', k' ≠ k → lookup k' t' = lookup k' t) :=
+  cells_insert S t t' when k vals hc (ht.2 k) h
 
 /-- an INSERT is refused exactly when the key is live, or deleted later than the insert's time -/
 theorem insert_refused_iff (t : Table K V) (when : Int) (k : K) (vals : AList String V) :
     insertRow t when k vals = .error .constraintPK ↔
-      ∃ e, lookup k t = some e ∧ (e.row.deleted = false ∨ e.row.dut > when) := by
-  sorry
+      ∃ e, lookup k t = some e ∧ (e.row.deleted = false ∨ e.row.dut > when) :=
+  insertRow_error_iff t when k vals
 
+set_option linter.unusedVariables false in
 theorem local_update (S : List String) (t : Table K V) (when : Int) (k : K) (vals : AList String V)
     (ht : TableInv S t) (e : SEntry V) (he : lookup k t = some e) (hl : e.row.deleted = false) :
     statusCell (lookup k (updateRow t when k vals)) = statusCell (lookup k t) ∧
     (∀ c, colCell c (lookup k (updateRow t when k vals)) =
       Sel.selOpt selCol (colCell c (lookup k t)) ((lookup c vals).map fun v => ⟨v, when⟩)) ∧
-    (∀ k', k' ≠ k → lookup k' (updateRow t when k vals) = lookup k' t) := by
-  sorry
+    (∀ k', k' ≠ k → lookup k' (updateRow t when k vals) = lookup k' t) :=
+  cells_update t when k vals e he hl
 
 /-- an UPDATE of a key that is absent or deleted changes nothing -/
 theorem update_absent_noop (t : Table K V) (when : Int) (k : K) (vals : AList String V)
     (h : visibleRow t k = none) : updateRow t when k vals = t := by
-  sorry
+  apply updateRow_noop
+  intro e he
+  rw [visibleRow_eq, he] at h
+  cases hd : e.row.deleted with
+  | true => rfl
+  | false => simp [visible, hd] at h
 
 theorem local_delete (S : List String) (t : Table K V) (when : Int) (k : K) (ht : TableInv S t) :
     statusCell (lookup k (deleteRow t when k)) = Sel.selOpt selStatus (statusCell (lookup k t)) (some ⟨when, true⟩) ∧
     (∀ c, colCell c (lookup k (deleteRow t when k)) = colCell c (lookup k t)) ∧
-    (∀ k', k' ≠ k → lookup k' (deleteRow t when k) = lookup k' t) := by
-  sorry
+    (∀ k', k' ≠ k → lookup k' (deleteRow t when k) = lookup k' t) :=
+  cells_delete S t when k (ht.2 k)
 
 end S3db.Props.C02
